@@ -18,6 +18,8 @@ U32BitTip blocks; block operands are list indices):
   bigs.getn <f|r> <n>               → nil | […] | panic
   tip.fromu32 <u> | tip.fromdata <start> <hex> | tip.set <k> <u> | tip.rev <k> | tips.rev | tip.show <k>
   tip.getn <k> <f|r> <n> | tip.iter <k> <f|r> <slen> <pos> <n> | tips.getn <f|r> <n>
+  stress <unm|many> <n>             → ok   (monitor-only: n-byte payload must be rejected; n single-member blocks)
+  stress <big|tip> <blocks> <n>     → ok   (monitor-only: Go checks list forms over many full blocks; not modelled here)
 The configuration is the one regenerated from the source (`Nv.Gen.C09.cfg`). When a behaviour-selecting fact of it is
 `.unknown` the affected operations (`big.getn`, `big.iter`, `bigs.getn`; `tip.getn`) answer `unknown-cfg`: the oracle never
 defaults to a behaviour it was not told.
@@ -150,6 +152,10 @@ def step (st : S) (line : String) : S × String :=
       | some b => ({ st with bigs := st.bigs ++ [b] }, "ok")
       | none => (st, "err")
     | none => (st, "bad-op")
+  | ["stress", kind, n] =>
+    match parseNat? n with
+    | some n => if (kind == "unm" || kind == "many") && n ≤ 200000 then (st, "ok") else (st, "bad-op")
+    | none => (st, "bad-op")
   | [op, s, h] =>
     if op == "big.fromdata" || op == "tip.fromdata" then
       match parseInt? s, parseBytes? h with
@@ -186,6 +192,13 @@ def step (st : S) (line : String) : S × String :=
         else (st, showGetN false (tipsGetN cfg st.magic rev st.tips n))
       | _, _ => (st, "bad-op")
     else (st, "bad-op")
+  | ["stress", kind, nb, n] =>
+    -- monitor-only operation: the Go side builds `nb` full blocks and checks the list forms against the set-level
+    -- expectation itself; the model is not evaluated here (its list writes are quadratic in the 10^5 values involved)
+    match parseNat? nb, parseInt? n with
+    | some nb, some n =>
+      if (kind == "big" || kind == "tip") && 1 ≤ nb && nb ≤ 100 && -200000 ≤ n && n ≤ 200000 then (st, "ok") else (st, "bad-op")
+    | _, _ => (st, "bad-op")
   | ["tip.fromu32", u] => match parseInt? u with
     | some u => if !inU32 u then (st, "bad-op") else ({ st with tips := st.tips ++ [newTipFromU32 (BitVec.ofInt 32 u)] }, "ok")
     | none => (st, "bad-op")
